@@ -274,12 +274,16 @@ def _set_ctor(interp, st, args, kwargs):
 
 
 def list_elems(st, v):
-    """characteristic array of the elements of a heap list"""
+    """characteristic array of the elements of a heap list (a fresh array constant
+    linked to the list by an assumption, so that membership stays atomic)"""
     cls = v.ty.cls
     arr, n = st.heap.read(cls, 'arr', v.z), st.heap.read(cls, 'len', v.z)
     x = z3.Const(sym.fresh_name('x'), cls.elem.sort())
     i = z3.Int(sym.fresh_name('i'))
-    return z3.Lambda([x], z3.Exists([i], z3.And(0 <= i, i < n, z3.Select(arr, i) == x)))
+    m = z3.Const(sym.fresh_name('elems'), z3.ArraySort(cls.elem.sort(), z3.BoolSort()))
+    st.assume(z3.ForAll([i], z3.Implies(z3.And(0 <= i, i < n), z3.Select(m, z3.Select(arr, i)))))
+    st.assume(z3.ForAll([x], z3.Implies(z3.Select(m, x), z3.Exists([i], z3.And(0 <= i, i < n, z3.Select(arr, i) == x)))))
+    return m
 
 
 def _list_ctor(interp, st, args, kwargs):
@@ -543,6 +547,13 @@ def str_method(interp, st, recv, name, args, kwargs):
     elif name == 'join' and len(args) == 1:
         items = interp.concrete_items(st, resolve(st, args[0]))
         if items is None:
+            a0 = resolve(st, args[0])
+            if is_heap(a0, 'set') or is_heap(a0, 'list'):
+                # opaque but deterministic rendering of a symbolic collection
+                arr, _ = elems_of(interp, st, a0)
+                f = interp.uf(f'join_{a0.ty.cls.name}', k, _ArrTy(a0.ty.cls.elem), k)
+                yield st, SV(k, f(z, arr))
+                return
             raise Unsupported('join over symbolic iterable')
         parts = []
         for i, it in enumerate(items):
@@ -605,8 +616,13 @@ def _rsplit(interp, st, k, z, sep, maxsplit):
     yield from go(st, z, [], maxsplit)
 
 
+MUTATORS = {'append', 'extend', 'sort', 'setdefault', 'pop', 'update', 'add', 'discard', 'remove', 'clear'}
+
+
 def py_method(interp, st, recv, name, args, kwargs):
     c = st.store[recv.id]
+    if name in MUTATORS:
+        st.mutating(recv)
     if recv.kind == 'list':
         if name == 'append':
             c.append(args[0])
@@ -834,3 +850,51 @@ def opaque_type(name, pytype=None, attrs=None, truth=None):
     t.attrs = attrs or {}
     t.truth = truth
     return t
+
+
+# ------------------------------------------------------------------ asyncio / quantified calls
+def forall_call(interp, st, f, coll, label):
+    """`f` applied to every element of `coll` exactly once, in unspecified order
+    (asyncio.gather(*map(f, S))).  The body is executed once for an arbitrary
+    element; its events are recorded as one quantified event."""
+    arr, et = elems_of(interp, st, coll)
+    x = sym.fresh(et, 'elem')
+    sub = st.copy()
+    base_pc, base_ev = len(sub.pc), len(sub.events)
+    sub.assume(z3.Select(arr, x.z))
+    sub.heap.written = set()
+    subpaths = []
+    for s, v in interp.call(sub, f, [x], {}):
+        if s.heap.written:
+            raise Unsupported(f'quantified call {label} writes heap fields {sorted(s.heap.written)}')
+        subpaths.append({'pc': s.pc[base_pc:], 'events': s.events[base_ev:],
+                         'raised': isinstance(v, Raised), 'exc': v.exc.cls if isinstance(v, Raised) else None})
+    can_raise = any(p['raised'] for p in subpaths)
+    if can_raise:
+        t = st.copy()
+        t.emit('forall', var=x, member=arr, paths=subpaths, label=label, partial=True)
+        yield t, Raised(Exc('AnyError'))
+    st.emit('forall', var=x, member=arr, paths=[p for p in subpaths if not p['raised']], label=label, partial=False)
+    yield st, None
+
+
+def _gather(interp, st, args, kwargs):
+    if len(args) == 1 and isinstance(args[0], StarArg) and isinstance(args[0].v, MapVal):
+        mv = args[0].v
+        yield from forall_call(interp, st, mv.f, mv.over, getattr(mv.f, 'name', 'f'))
+        return
+    raise Unsupported('asyncio.gather form')
+
+
+def _noop(interp, st, args, kwargs):
+    yield st, None
+
+
+ASYNCIO = Obj('asyncio', gather=Model('asyncio.gather', _gather), sleep=Model('asyncio.sleep', _noop),
+              get_running_loop=Model('get_running_loop', lambda i, s, a, k: iter([(s, Obj('loop'))])))
+
+
+def tqdm_model():
+    def fn(interp, st, args, kwargs):
+        yield st, CM('tqdm')
+    return Model('tqdm', fn)
